@@ -76,3 +76,52 @@ Example both_limits_example :
   [ [(EStored, a, 0)]; [(EStored, b, 0)]; [(EStored, a, 1)]; [(EDeleted, a, 0); (EStored, a, 2)];
     [(EDeleted, a, 1); (EDeleted, b, 0); (EStored, a, 3)] ].
 Proof. vm_compute. reflexivity. Qed.
+
+(* ------------------------------------------------------------------ only what is necessary: both directions *)
+Lemma evict_fit_nil max l : (total l <= max)%N -> evict_fit max l = ([], l).
+Proof. intros H. destruct l as [|e l]; [reflexivity|]. cbn [evict_fit]. apply N.leb_le in H. rewrite H. reflexivity. Qed.
+
+Lemma evict_fit_cons max l : fst (evict_fit max l) <> [] -> (max < total l)%N.
+Proof.
+  intros H. destruct (N.le_gt_cases (total l) max) as [Hle|Hgt]; [|exact Hgt].
+  rewrite (evict_fit_nil max l Hle) in H. simpl in H. congruence.
+Qed.
+
+(** [evicts_iff_necessary]: a delivery evicts by the cap if and only if the receiving mailbox
+    would otherwise exceed the cap, and by the size limit if and only if the store (after the cap
+    step) would otherwise exceed the limit; with a limit switched off (0) nothing is evicted for
+    it. Together with both_limits_delivery (HOW MANY and WHICH): nothing is evicted needlessly,
+    nothing necessary is left in. *)
+Theorem evicts_iff_necessary cfg st mb m :
+  let len := length (box mb (live st)) in
+  let '(d1, l2) := add_cap cfg mb (add_l1 st mb m) in
+  let '(d2, l3) := add_fit cfg l2 in
+  (d1 <> [] <-> c_cap cfg <> 0 /\ c_cap cfg < len + 1) /\
+  (d2 <> [] <-> c_max cfg <> 0%N /\ (c_max cfg < total l2)%N).
+Proof.
+  intros len. pose proof (cap_keeps_newest cfg st mb m) as Hk. cbv zeta in Hk.
+  set (nw := {| e_mb := mb; e_k := count_of mb (counts st); e_msg := m |}) in *.
+  assert (Hsb : length (box mb (live st) ++ [nw]) = len + 1) by (rewrite app_length; reflexivity).
+  assert (Hc0 : c_cap cfg = 0 -> fst (add_cap cfg mb (add_l1 st mb m)) = []).
+  { intros H0. unfold add_cap. rewrite H0. reflexivity. }
+  destruct (add_cap cfg mb (add_l1 st mb m)) as [d1 l2]. destruct Hk as [Hk1 _]. cbn [fst] in Hc0.
+  assert (Hfit : (c_max cfg = 0%N -> add_fit cfg l2 = ([], l2)) /\
+                 (c_max cfg <> 0%N -> add_fit cfg l2 = evict_fit (c_max cfg) l2)).
+  { unfold add_fit. split; intros H; [rewrite H; reflexivity | apply N.eqb_neq in H; rewrite H; reflexivity]. }
+  destruct Hfit as [Hf0 Hf1].
+  pose proof (evict_fit_spec (c_max cfg) l2) as Hsp.
+  destruct (add_fit cfg l2) as [d2 l3]. split.
+  - split.
+    + intros Hne. destruct (Nat.eq_dec (c_cap cfg) 0) as [H0|H0]; [exfalso; apply Hne; apply Hc0; exact H0|].
+      split; [exact H0|]. destruct (Hk1 H0) as [_ Hd]. rewrite Hsb in Hd.
+      destruct (Nat.le_gt_cases (len + 1) (c_cap cfg)) as [Hle|Hgt]; [|exact Hgt].
+      replace (len + 1 - c_cap cfg) with 0 in Hd by lia. simpl in Hd. exfalso; apply Hne; exact Hd.
+    + intros [H0 Hlt]. destruct (Hk1 H0) as [_ Hd]. rewrite Hsb in Hd. rewrite Hd.
+      destruct (len + 1 - c_cap cfg) as [|n] eqn:En; [lia|]. destruct (box mb (live st)) as [|x sb]; simpl; discriminate.
+  - split.
+    + intros Hne. destruct (N.eq_dec (c_max cfg) 0) as [H0|H0].
+      * pose proof (Hf0 H0) as Ef. inversion Ef; subst. exfalso; apply Hne; reflexivity.
+      * split; [exact H0|]. pose proof (Hf1 H0) as Ef. apply evict_fit_cons. rewrite <- Ef. exact Hne.
+    + intros [H0 Hlt]. pose proof (Hf1 H0) as Ef. rewrite <- Ef in Hsp. destruct Hsp as [Hs [Ht _]].
+      intros Hd. subst d2. simpl in Hs. subst l3. lia.
+Qed.
